@@ -105,6 +105,12 @@ class PyObj(ContainerNode):
     def __len__(self) -> int:
         return 2
 
+    def __eq__(self, other):
+        return isinstance(other, PyObj) and self.class_name == other.class_name and self.attrs == other.attrs
+
+    def __hash__(self):
+        return hash((self.class_name, self.attrs))
+
     def __repr__(self):
         return f"{self.__class__.__name__}(class_name={self.class_name!r}, attrs={self.attrs!r})"
 
